@@ -15,7 +15,7 @@ Safety model (bank-grade, fail closed):
 import json
 import logging
 import time
-from typing import Dict, Set
+from typing import Dict, Set, Tuple
 
 from .file_manager import FileManager
 from .metadata_manager import MetadataManager
@@ -74,6 +74,15 @@ class GarbageCollector:
         """
         stats = {"data_files": 0, "manifest_files": 0, "manifest_lists": 0}
 
+        # 0. Observe the in-flight markers BEFORE reading the metadata. A
+        # committing transaction removes its markers only after its commit
+        # point, so a marker that is already gone here belongs to a commit the
+        # metadata read below is guaranteed to see. Read the other way round, a
+        # commit landing between the two reads is neither reachable (stale
+        # metadata) nor protected (marker gone) and its files would be deleted.
+        # Nothing is swept yet: an aborted collection must not remove markers.
+        protected_files, abandoned_markers = self._load_inflight_protection(inflight_timeout_ms)
+
         # 1. Refresh metadata to get latest view
         metadata = self.metadata_manager.refresh()
         if not metadata:
@@ -130,8 +139,9 @@ class GarbageCollector:
         logger.info(f"Found reachable: {len(reachable_manifest_lists)} manifest lists, "
                     f"{len(reachable_manifests)} manifests, {len(reachable_data_files)} data files")
 
-        # 3. Load in-flight protection markers (and sweep abandoned ones)
-        protected_files = self._load_inflight_protection(inflight_timeout_ms)
+        # 3. Sweep the markers found abandoned in step 0; a marker that cannot
+        # be removed keeps protecting its file.
+        protected_files |= self._sweep_abandoned_markers(abandoned_markers, inflight_timeout_ms)
         if protected_files:
             logger.info(f"Protecting {len(protected_files)} in-flight files from GC")
 
@@ -156,15 +166,17 @@ class GarbageCollector:
         logger.info(f"Garbage collection complete. Deleted: {stats}")
         return stats
 
-    def _load_inflight_protection(self, inflight_timeout_ms: int) -> Set[str]:
+    def _load_inflight_protection(self, inflight_timeout_ms: int) -> Tuple[Set[str], Dict[str, str]]:
         """Collect paths protected by fresh in-flight markers.
 
         Protection covers every file a transaction has written but not yet made
         reachable - data files AND the manifests / manifest lists of a commit in
-        progress. Markers older than the abandonment timeout are deleted; their
-        files fall back to normal orphan handling.
+        progress. Markers older than the abandonment timeout are returned
+        separately (marker path -> file it names) for _sweep_abandoned_markers;
+        nothing is deleted here.
         """
         protected: Set[str] = set()
+        abandoned: Dict[str, str] = {}
         cutoff = (time.time() * 1000) - inflight_timeout_ms
 
         try:
@@ -192,18 +204,26 @@ class GarbageCollector:
             if age_ok:
                 protected.add(data_rel)
             else:
-                logger.warning(
-                    f"Removing abandoned in-flight marker {norm_marker} "
-                    f"(older than {inflight_timeout_ms}ms)"
-                )
-                try:
-                    self.storage.delete_file(norm_marker)
-                except Exception as e:
-                    logger.warning(f"Failed to delete stale marker {norm_marker}: {e}")
-                    # Could not remove the marker -> keep protecting its file
-                    protected.add(data_rel)
+                abandoned[norm_marker] = data_rel
 
-        return protected
+        return protected, abandoned
+
+    def _sweep_abandoned_markers(self, abandoned: Dict[str, str], inflight_timeout_ms: int) -> Set[str]:
+        """Delete abandoned markers; their files fall back to normal orphan
+        handling. Returns the files whose marker could not be removed."""
+        still_protected: Set[str] = set()
+        for norm_marker, data_rel in abandoned.items():
+            logger.warning(
+                f"Removing abandoned in-flight marker {norm_marker} "
+                f"(older than {inflight_timeout_ms}ms)"
+            )
+            try:
+                self.storage.delete_file(norm_marker)
+            except Exception as e:
+                logger.warning(f"Failed to delete stale marker {norm_marker}: {e}")
+                # Could not remove the marker -> keep protecting its file
+                still_protected.add(data_rel)
+        return still_protected
 
     def _marker_target(self, marker_path: str, basename: str) -> str:
         """Resolve which file a marker protects.
